@@ -154,27 +154,48 @@ func c02HeaderBytes(h textproto.Header) []byte {
 	return b.Bytes()
 }
 
-// c02MakeHeader: one field when pad < 0, else a second field with pad filler bytes.
+// c02MakeHeader: pad >= 0: "Subject: c02" and an X-Pad field with pad+1 filler bytes; -1: the Subject field
+// only; -2: "Subject: c02" and an X-Pad field whose value is EMPTY; -3: one Subject field with an empty
+// value; -4: no field at all (the header file is the bare terminating CRLF).  All of them are headers the
+// queue can be handed; textproto writes one piece per field and the final CRLF.
 func c02MakeHeader(pad int) textproto.Header {
 	h := textproto.Header{}
-	h.Add("Subject", "c02")
-	if pad >= 0 {
+	switch {
+	case pad == -4:
+	case pad == -3:
+		h.Add("Subject", "")
+	default:
+		h.Add("Subject", "c02")
+	}
+	switch {
+	case pad >= 0:
 		h.Add("X-Pad", strings.Repeat("p", pad+1))
+	case pad == -2:
+		h.Add("X-Pad", "")
 	}
 	return h
 }
 
-// c02HeaderForLen finds the header whose serialisation has hl bytes.
+// c02HeaderForLen finds the header whose serialisation has hl bytes (the variants have distinct lengths:
+// 2, 13, 16, 25, 26+pad).
 func c02HeaderForLen(hl int) (textproto.Header, bool) {
-	base := len(c02HeaderBytes(c02MakeHeader(-1)))
-	if hl == base {
-		return c02MakeHeader(-1), true
+	for _, pad := range []int{-1, -2, -3, -4} {
+		if hl == len(c02HeaderBytes(c02MakeHeader(pad))) {
+			return c02MakeHeader(pad), true
+		}
 	}
 	two := len(c02HeaderBytes(c02MakeHeader(0)))
 	if hl >= two {
 		return c02MakeHeader(hl - two), true
 	}
 	return textproto.Header{}, false
+}
+
+// c02HeaderLens: the header lengths the generators draw from (index: 0 no field, 1 one empty field, 2 one
+// field, 3 second field empty).
+func c02HeaderLens() [4]int {
+	return [4]int{len(c02HeaderBytes(c02MakeHeader(-4))), len(c02HeaderBytes(c02MakeHeader(-3))),
+		len(c02HeaderBytes(c02MakeHeader(-1))), len(c02HeaderBytes(c02MakeHeader(-2)))}
 }
 
 func c02Body(id string, n int) []byte {
@@ -405,13 +426,15 @@ type c02SegIn struct {
 	accepts  []c02Accept       // only for the first run
 	outcomes map[string][]string
 	expect   map[string]string
-	stagger  int // 0: one transaction after the other; 1: all at once; 2: next one starts when the previous is first attempted
+	stagger  int // 0: one transaction after the other; 1: all at once; 2: next one starts when the previous is first attempted; 3: one after the other, no delivery begins before the last transaction has ended (a backlog builds up)
+	par      int // max_parallelism of this run (0: 4)
 	recovery bool
 	extDel   string // "<id>:<kind>": delete that file behind the queue's back between the start-up scan and the first dispatch
 }
 
 type c02SegOut struct {
 	raced bool // the external deletion came too late (discard the case)
+	hung  bool // the run stopped making progress while deliveries were still owed (logs/final: the state it is stuck in)
 	logs  map[string][]*vos.Entry
 	final map[string]map[string]vos.FState // id → kind → file
 	bad   map[string]bool
@@ -420,6 +443,21 @@ type c02SegOut struct {
 var c02Base string
 var c02DirSeq int64
 var c02Runs int64
+
+// c02Hangs counts the runs that stopped making progress.  A queue that is stuck is abandoned (its
+// goroutines are blocked for ever).  The first such run is given a long time; once one was seen the
+// others are given up on sooner, and after a few of them the generators stop producing the inputs
+// that can only hang again (the verdict is a violation already).
+var c02Hangs int64
+
+const c02HangsEnough = 4
+
+func c02Patience() time.Duration {
+	if atomic.LoadInt64(&c02Hangs) > 0 {
+		return 6 * time.Second
+	}
+	return 25 * time.Second
+}
 
 func c02RunSegment(in c02SegIn) c02SegOut {
 	atomic.AddInt64(&c02Runs, 1)
@@ -456,11 +494,41 @@ func c02RunSegment(in c02SegIn) c02SegOut {
 	q.autogenMsgDomain = "example.org"
 	q.Log = log.Logger{Out: lg, Debug: true}
 	q.dsnPipeline = &c02Bounce{t: tgt}
-	if err := q.start(4); err != nil {
-		panic(err)
+	par := in.par
+	if par <= 0 {
+		par = 4
+	}
+	// The start-up scan runs under the same patience rule as the deliveries (progress()): with a
+	// backlog the time wheel may begin to dispatch while readDiskQueue is still adding slots.
+	hung := false
+	progress := func() int {
+		lg.mu.Lock()
+		defer lg.mu.Unlock()
+		return w.Len() + lg.loaded + lg.removed + lg.readErr
+	}
+	started := make(chan error, 1)
+	go func() { started <- q.start(par) }()
+	for last, lastAt := -1, time.Now(); ; {
+		select {
+		case err := <-started:
+			if err != nil {
+				panic(err)
+			}
+		default:
+			if c := progress(); c != last {
+				last, lastAt = c, time.Now()
+			}
+			if time.Since(lastAt) <= c02Patience() {
+				time.Sleep(50 * time.Microsecond)
+				continue
+			}
+			hung = true
+			atomic.AddInt64(&c02Hangs, 1)
+		}
+		break
 	}
 	raced := false
-	if in.extDel != "" {
+	if in.extDel != "" && !hung {
 		p := strings.SplitN(in.extDel, ":", 2)
 		w.ExternalRemove(p[0], p[1])
 		opens := 0
@@ -508,7 +576,9 @@ func c02RunSegment(in c02SegIn) c02SegOut {
 				panic(err)
 			}
 			w.Event(a.id, "ACC")
-			close(tgt.gates[a.id])
+			if in.stagger != 3 {
+				close(tgt.gates[a.id])
+			}
 		case 'b':
 			w.Event(a.id, "@B")
 			if err := d.Abort(ctx); err != nil {
@@ -519,6 +589,9 @@ func c02RunSegment(in c02SegIn) c02SegOut {
 			aborts++
 			cmu.Unlock()
 		}
+	}
+	if hung {
+		in.accepts = nil
 	}
 	var awg sync.WaitGroup
 	switch in.stagger {
@@ -541,10 +614,23 @@ func c02RunSegment(in c02SegIn) c02SegOut {
 		}
 	}
 	awg.Wait()
+	if in.stagger == 3 {
+		for _, a := range in.accepts {
+			if a.fate == 'c' {
+				close(tgt.gates[a.id])
+			}
+		}
+	}
 
-	// quiescence: every delivery chain (one per scheduled or committed message) has ended
-	deadline := time.Now().Add(60 * time.Second)
-	for {
+	// quiescence: every delivery chain (one per scheduled or committed message) has ended.  A run that
+	// makes no progress at all (no file-system call, no event, no log line of the queue) for c02Patience()
+	// while deliveries are still owed is stuck: it is reported by the callers (never waited for again).
+	deadline := time.Now().Add(90 * time.Second)
+	lastProgress, lastCount := time.Now(), -1
+	for !hung {
+		if cnt := progress(); cnt != lastCount {
+			lastCount, lastProgress = cnt, time.Now()
+		}
 		lg.mu.Lock()
 		cmu.Lock()
 		// a panicking delivery ends with the rename done by the panic handler (which runs after deliveryWg.Done)
@@ -557,12 +643,19 @@ func c02RunSegment(in c02SegIn) c02SegOut {
 		if live == 0 {
 			break
 		}
+		if live > 0 && time.Since(lastProgress) > c02Patience() {
+			hung = true
+			atomic.AddInt64(&c02Hangs, 1)
+			break
+		}
 		if live < 0 || time.Now().After(deadline) {
 			panic(fmt.Sprintf("c02: queue did not become quiescent (live=%d loaded=%d commits=%d removed=%d aborts=%d readErr=%d)", live, lg.loaded, commits, lg.removed, aborts, lg.readErr))
 		}
 		time.Sleep(100 * time.Microsecond)
 	}
-	q.Close()
+	if !hung {
+		q.Close()
+	}
 
 	// the shadow must be what is really in the directory
 	sh := w.Shadow()
@@ -576,7 +669,7 @@ func c02RunSegment(in c02SegIn) c02SegOut {
 			panic("c02: shadow differs from the directory for " + e.Name())
 		}
 	}
-	out := c02SegOut{raced: raced, logs: map[string][]*vos.Entry{}, final: map[string]map[string]vos.FState{}, bad: tgt.bad}
+	out := c02SegOut{raced: raced, hung: hung, logs: map[string][]*vos.Entry{}, final: map[string]map[string]vos.FState{}, bad: tgt.bad}
 	for _, id := range w.Ids() {
 		out.logs[id] = w.Log(id)
 		out.final[id] = w.Final(id)
@@ -1007,8 +1100,133 @@ type c02Explorer struct {
 	rng      *vh.Rng
 	only     map[int]c02Only // replay: restrict depth d to one cut
 	cache    map[string]c02SegOut
+	ctxs     map[string]*c02RecCtx
 	seen     *sync.Map
 	scen     string
+	par      int // max_parallelism of the recovery runs
+	sample   int // >0: percentage of the crash points that are explored (scenarios with many messages)
+}
+
+// c02RecCtx: one recovery run of the explorer, as far as the multi-message reporting needs it.
+type c02RecCtx struct {
+	perID       map[string]map[string][]byte // id → kind → bytes found at the restart
+	outcomes    map[string][]string
+	deliverable int
+	tried       bool
+	reproduced  bool
+	capped      bool
+	line        string
+}
+
+// c02Confirms counts the re-runs of reduced directories (see lost).
+var c02Confirms int64
+
+const c02ConfirmCap = 24
+
+// backlogLine describes the complete messages of the directory of a recovery run as a `C02 backlog`
+// line (ids renumbered a1, a2, … in order; only messages whose files are exactly what a hand-made
+// spec can express: that is every complete message the unchanged queue ever leaves behind).
+func (x *c02Explorer) backlogLine(ctx *c02RecCtx) (string, bool) {
+	ids := make([]string, 0, len(ctx.perID))
+	for id := range ctx.perID {
+		ids = append(ids, id)
+	}
+	sort.Strings(ids)
+	line := fmt.Sprintf("C02 backlog %d %d", x.maxTries, x.parOr4())
+	k := 0
+	for _, id := range ids {
+		st := ctx.perID[id]
+		m, okM := st["M"]
+		h, okH := st["H"]
+		b, okB := st["B"]
+		if !okM || !okH || !okB {
+			continue
+		}
+		to, tries, ok := c02MetaTo(m, id)
+		if !ok || len(to) == 0 || strings.Contains(strings.Join(to, " "), "UNKNOWN") {
+			continue
+		}
+		hdr, ok := c02HeaderForLen(len(h))
+		if !ok || !bytes.Equal(c02HeaderBytes(hdr), h) || !bytes.Equal(c02Body(id, len(b)), b) {
+			continue
+		}
+		env := x.env[id]
+		if env == 0 {
+			env = 'p'
+		}
+		if c02MetaNull(m) != c02EnvNull(env) {
+			continue
+		}
+		spec := fmt.Sprintf("1 H%d B%d M%s;%s", len(h), len(b), strings.Join(to, "."), strings.Join(tries, "."))
+		if env != 'p' {
+			spec += ";" + string(env)
+		}
+		if _, ok := st["N"]; ok {
+			spec += " N+"
+		} else {
+			spec += " N-"
+		}
+		if _, ok := st["X"]; ok {
+			spec += " X+"
+		} else {
+			spec += " X-"
+		}
+		for _, o := range ctx.outcomes[id] {
+			spec += " O" + o
+		}
+		if k > 0 {
+			line += " /"
+		}
+		line += " " + spec
+		k++
+	}
+	return line, k >= 2
+}
+
+func (x *c02Explorer) parOr4() int {
+	if x.par <= 0 {
+		return 4
+	}
+	return x.par
+}
+
+// lost reports a loss (or a stuck run) seen in a recovery run of the explorer.  The op line of the
+// explorer is the history of ONE id; when the directory held several deliverable messages the loss may
+// depend on the others (a backlog larger than max_parallelism), so the directory is first reduced to a
+// hand-made `C02 backlog` line, that line is run, and its own monitor reports the violation with a line
+// that reproduces it.  Only when that does not reproduce it is the single-id line named.
+func (x *c02Explorer) lost(ctx *c02RecCtx, sig, op, detail string) {
+	if ctx == nil || ctx.deliverable < 2 {
+		x.out.Violation(sig, op, detail)
+		return
+	}
+	if !ctx.tried {
+		ctx.tried = true
+		if atomic.AddInt64(&c02Confirms, 1) > c02ConfirmCap || atomic.LoadInt64(&c02Hangs) >= c02HangsEnough+2 {
+			ctx.capped = true
+		} else if line, ok := x.backlogLine(ctx); ok {
+			ctx.line = line
+			// a stuck run may depend on how the deliveries interleave: the reduced directory gets three tries
+			for try := 0; try < 3 && !ctx.reproduced; try++ {
+				ctx.reproduced = c02RunBacklog(x.out, line) > 0
+				if sig != "C02/recovery-hang" {
+					break
+				}
+			}
+		}
+	}
+	switch {
+	case ctx.reproduced:
+		x.out.Stat("monitor.multi-message-loss.reported-with-backlog-line")
+	case ctx.capped:
+		x.out.Stat("monitor.multi-message-loss.not-reported(enough-reported-already)")
+	case sig == "C02/recovery-hang":
+		// no line that reproduces it: the T2 lines of the stuck run (SLOT-NEVER-FIRED) still flag it
+		x.out.Stat("monitor.stuck-multi-message-run.not-reproduced-from-reduced-directory")
+		x.out.Note("a recovery run on a directory with " + strconv.Itoa(ctx.deliverable) + " deliverable messages stopped making progress (" + op + "); the reduced directory did not get stuck: " + ctx.line)
+	default:
+		x.out.Violation(sig, op, detail+"; the directory held "+strconv.Itoa(ctx.deliverable)+" deliverable messages (max_parallelism "+strconv.Itoa(x.parOr4())+"); not reproduced from the reduced directory "+ctx.line)
+	}
 }
 
 type c02Only struct {
@@ -1064,6 +1282,9 @@ func (x *c02Explorer) vectors(seg c02SegOut, depth int) []c02Vector {
 	for _, id := range ids {
 		lg := seg.logs[id]
 		for _, c := range c02Cuts(lg, true) {
+			if x.sample > 0 && !x.rng.Chance(x.sample) {
+				continue
+			}
 			seq := int(^uint(0) >> 1)
 			if c.pos < len(lg) {
 				seq = lg[c.pos].Seq
@@ -1141,13 +1362,23 @@ func (x *c02Explorer) explore(seg c02SegOut, recovery bool, hist map[string]c02H
 		}
 		// does the directory hold anything the start-up scan could schedule?
 		deliverable := false
+		ndeliverable := 0
 		for _, st := range perID {
 			_, m := st["M"]
 			_, h := st["H"]
 			_, b := st["B"]
 			if m && h && b {
 				deliverable = true
+				ndeliverable++
 			}
+		}
+		if ndeliverable > x.parOr4() {
+			if atomic.LoadInt64(&c02Hangs) >= c02HangsEnough {
+				// recovery runs got stuck already (reported): do not wait for more of the same
+				x.out.Stat("recovery-runs.skipped(backlog-after-stuck-runs)")
+				continue
+			}
+			x.out.Stat("recovery-runs.vector.backlog-larger-than-max-parallelism")
 		}
 		// Scripts of the recovery run.  When something can be delivered the run is made with a script
 		// that fails recipients temporarily and permanently from its first attempt on (so the
@@ -1207,8 +1438,12 @@ func (x *c02Explorer) explore(seg c02SegOut, recovery bool, hist map[string]c02H
 			key := fmt.Sprintf("%d|%s|%s", x.maxTries, skey, okey)
 			rec, ok := x.cache[key]
 			if !ok {
-				rec = c02RunSegment(c02SegIn{maxTries: x.maxTries, files: files, outcomes: outcomes, expect: x.expect, recovery: true})
+				rec = c02RunSegment(c02SegIn{maxTries: x.maxTries, files: files, outcomes: outcomes, expect: x.expect, recovery: true, par: x.par})
 				x.cache[key] = rec
+				x.ctxs[key] = &c02RecCtx{perID: perID, outcomes: outcomes, deliverable: ndeliverable}
+				if ndeliverable > x.parOr4() {
+					x.out.Stat(fmt.Sprintf("recovery-runs.backlog.%d-messages.max-parallelism-%d", ndeliverable, x.parOr4()))
+				}
 				x.out.Stat("recovery-runs.depth" + strconv.Itoa(depth))
 				if deliverable && len(variants) >= 3 {
 					for vk := range variants {
@@ -1225,15 +1460,18 @@ func (x *c02Explorer) explore(seg c02SegOut, recovery bool, hist map[string]c02H
 				first = rec
 			}
 			for id, c := range v.cuts {
-				x.judge(id, next[id], perID[id], rec, depth, v.keep, c)
+				x.judge(id, next[id], perID[id], rec, x.ctxs[key], depth, v.keep, c)
 			}
+		}
+		if first.hung {
+			continue // a stuck run is not crashed again
 		}
 		x.explore(first, true, next, depth+1)
 	}
 }
 
 // judge emits the correspondence line of one id for one crash history and evaluates the property.
-func (x *c02Explorer) judge(id string, h c02Hist, crashFiles map[string][]byte, rec c02SegOut, depth int, keep string, cut c02Cut) {
+func (x *c02Explorer) judge(id string, h c02Hist, crashFiles map[string][]byte, rec c02SegOut, ctx *c02RecCtx, depth int, keep string, cut c02Cut) {
 	hp := h.hp
 	if hp < 0 {
 		hp = 1
@@ -1350,6 +1588,16 @@ func (x *c02Explorer) judge(id string, h c02Hist, crashFiles map[string][]byte, 
 	if null {
 		x.out.Stat("history.null-reverse-path")
 	}
+	if data, ok := crashFiles["B"]; ok && hasM && hasH && len(data) < 2 {
+		x.out.Stat(fmt.Sprintf("crash-state.complete.body-bytes.%d", len(data)))
+	}
+	if rec.hung {
+		// the run is stuck: nothing more happens to any message of the directory
+		if len(rec.logs[id]) > 0 || (hasM && hasH && hasB) {
+			x.lost(ctx, "C02/recovery-hang", op, "the recovery run stopped making progress while the queue still owed a delivery; "+detail())
+		}
+		return
+	}
 	// (1) the clause for this recovery run and the message it found stored (whatever happened before):
 	// every pending recipient of a complete stored message is attempted and then delivered, reported,
 	// or still pending in a loadable .meta.  A scripted panic of the target quarantines by design.
@@ -1380,7 +1628,7 @@ func (x *c02Explorer) judge(id string, h c02Hist, crashFiles map[string][]byte, 
 			if _, q := rec.final[id]["X"]; q && !hasX {
 				quarantined = " (the recovery run left the meta-data as .meta_broken, which is never loaded again)"
 			}
-			x.out.Violation(sig, op, "pending recipient "+lost+" of "+what+" "+why+quarantined+"; "+detail())
+			x.lost(ctx, sig, op, "pending recipient "+lost+" of "+what+" "+why+quarantined+"; "+detail())
 			lostReported = true
 		} else {
 			for _, r := range storedTo {
@@ -1397,7 +1645,7 @@ func (x *c02Explorer) judge(id string, h c02Hist, crashFiles map[string][]byte, 
 			r := strconv.Itoa(i)
 			gaveUpPre := null && (h.prm[r] || h.tmp[r] >= x.maxTries)
 			if !termPre[r] && !gaveUpPre && !(attemptedPost[r] && accountedPost[r]) {
-				x.out.Violation("C02/accepted-lost", op, "recipient "+r+" of an accepted message neither had an outcome before the stop nor is attempted after restart; "+detail())
+				x.lost(ctx, "C02/accepted-lost", op, "recipient "+r+" of an accepted message neither had an outcome before the stop nor is attempted after restart; "+detail())
 				break
 			}
 		}
@@ -1469,6 +1717,7 @@ type c02Scenario struct {
 	accepts  []c02Accept
 	out0     map[string][]string
 	stagger  int
+	par      int // max_parallelism of the recovery runs (0: 4); the first run always has room for every message
 }
 
 func c02GenOutcomes(r *vh.Rng, n int, attempts int, faulty int, allowPanic bool) []string {
@@ -1494,23 +1743,43 @@ func c02GenOutcomes(r *vh.Rng, n int, attempts int, faulty int, allowPanic bool)
 func c02GenScenario(r *vh.Rng) c02Scenario {
 	sc := c02Scenario{maxTries: 1 + r.Intn(3), out0: map[string][]string{}}
 	nm := 1
-	switch x := r.Intn(10); {
-	case x < 5:
+	switch x := r.Intn(20); {
+	case x < 9:
 		nm = 1
-	case x < 8:
+	case x < 14:
 		nm = 2
-	default:
+	case x < 18:
 		nm = 3
+	case x < 19:
+		nm = 4
+	default:
+		nm = 5
 	}
 	sc.stagger = r.Intn(3)
-	base := len(c02HeaderBytes(c02MakeHeader(-1)))
+	if nm >= 2 && r.Chance(40) {
+		sc.stagger = 3 // nothing is delivered before the last transaction ended: the stop finds a backlog
+	}
+	// max_parallelism of the recovery runs: mostly smaller than the number of messages in the spool
+	sc.par = []int{1, 2, 1, 2, 4}[r.Intn(5)]
+	hls := c02HeaderLens()
+	base := hls[2]
 	two := len(c02HeaderBytes(c02MakeHeader(0)))
 	for i := 0; i < nm; i++ {
-		a := c02Accept{id: fmt.Sprintf("a%d", i+1), n: 1 + r.Intn(3), bl: []int{2, 7, 40, 300}[r.Intn(4)]}
-		if r.Bool() {
+		// bodies: a fifth of the messages are header-only (zero-length body: io.Copy issues no write at all,
+		// the body file exists and is empty), a tenth have a single byte
+		a := c02Accept{id: fmt.Sprintf("a%d", i+1), n: 1 + r.Intn(3), bl: []int{0, 0, 1, 2, 7, 7, 7, 40, 40, 300}[r.Intn(10)]}
+		// headers: one field / two fields; sometimes a field with an empty value or no field at all
+		switch x := r.Intn(20); {
+		case x < 8:
 			a.hl = base
-		} else {
+		case x < 15:
 			a.hl = two + r.Intn(6)
+		case x < 17:
+			a.hl = hls[1]
+		case x < 19:
+			a.hl = hls[3]
+		default:
+			a.hl = hls[0]
 		}
 		switch x := r.Intn(10); {
 		case x < 7:
@@ -1547,9 +1816,21 @@ func c02RunScenario(out *vh.Out, sc c02Scenario, r *vh.Rng, seen *sync.Map, only
 		norig[a.id] = a.n
 		envs[a.id] = a.envL()
 	}
-	seg0 := c02RunSegment(c02SegIn{maxTries: sc.maxTries, accepts: sc.accepts, outcomes: sc.out0, expect: expect, stagger: sc.stagger})
+	seg0 := c02RunSegment(c02SegIn{maxTries: sc.maxTries, accepts: sc.accepts, outcomes: sc.out0, expect: expect, stagger: sc.stagger, par: 8})
+	if seg0.hung {
+		out.Violation("C02/queue-hang", fmt.Sprintf("C02 run %d 1 %s", sc.maxTries, strings.Join(c02Tokens(seg0.logs[sc.accepts[0].id], c02Cut{pos: len(seg0.logs[sc.accepts[0].id])}, false), " ")),
+			fmt.Sprintf("the queue stopped making progress in a run without any crash (%d messages, max_parallelism 8) while it still owed deliveries", len(sc.accepts)))
+		return
+	}
 	x := &c02Explorer{out: out, maxTries: sc.maxTries, expect: expect, norig: norig, env: envs, outs: recOuts, maxDepth: maxDepth,
-		thorough: vh.Thorough(), rng: r, only: only, cache: map[string]c02SegOut{}, seen: seen}
+		thorough: vh.Thorough(), rng: r, only: only, cache: map[string]c02SegOut{}, ctxs: map[string]*c02RecCtx{}, seen: seen, par: sc.par}
+	if len(sc.accepts) >= 4 && only == nil {
+		// many messages: a sample of the crash points (each of them stops ALL the messages)
+		x.sample = 30
+		if vh.Thorough() {
+			x.sample = 60
+		}
+	}
 	// the run without any crash: the order of the file-system calls of every procedure
 	hist := map[string]c02Hist{}
 	for _, a := range sc.accepts {
@@ -1564,12 +1845,20 @@ func c02RunScenario(out *vh.Out, sc c02Scenario, r *vh.Rng, seen *sync.Map, only
 		out.Stat(fmt.Sprintf("scenario.fate.%c", a.fate))
 		out.Stat(fmt.Sprintf("scenario.rcpts.%d", a.n))
 		out.Stat(fmt.Sprintf("scenario.envelope.%c", a.envL()))
+		if a.bl < 2 {
+			out.Stat(fmt.Sprintf("scenario.body-bytes.%d", a.bl))
+		}
+		if hls := c02HeaderLens(); a.hl == hls[0] || a.hl == hls[1] || a.hl == hls[3] {
+			out.Stat("scenario.header." + map[int]string{hls[0]: "no-field", hls[1]: "one-empty-field", hls[3]: "second-field-empty"}[a.hl])
+		}
 		if seg0.bad[a.id] {
 			out.Violation("C02/content-differs-without-crash", op, "delivered content differs from the accepted one")
 		}
 	}
 	out.Stat(fmt.Sprintf("scenario.messages.%d", len(sc.accepts)))
 	out.Stat(fmt.Sprintf("scenario.maxTries.%d", sc.maxTries))
+	out.Stat(fmt.Sprintf("scenario.stagger.%d", sc.stagger))
+	out.Stat(fmt.Sprintf("scenario.recovery-max-parallelism.%d", x.parOr4()))
 	x.explore(seg0, false, hist, 1)
 }
 
@@ -1609,6 +1898,10 @@ func c02Replay(out *vh.Out, op string, seen *sync.Map) {
 	}
 	if f[1] == "syn" {
 		c02ReplaySyn(out, op)
+		return
+	}
+	if f[1] == "backlog" {
+		c02RunBacklog(out, op)
 		return
 	}
 	maxTries, _ := strconv.Atoi(f[2])
@@ -1709,44 +2002,54 @@ func c02MetaJSON(id string, to []int, tries []int, env byte) []byte {
 	return b.Bytes()
 }
 
-func c02RunSyn(out *vh.Out, op string) {
-	// C02 syn <maxTries> <hp> H<len|-> B<len|-> M<to;tries[;env]|g|-> N<+|-> X<+|-> R <outcome tokens are derived>
-	f := strings.Fields(op)
-	if len(f) < 9 {
-		return
+// c02SynSpec is one hand-made message: the files of one id, described by the fields
+// <hp> H<len|-> B<len|-> M<to;tries[;env]|g|-> N<+|-> X<+|-> followed by O/Z tokens.
+type c02SynSpec struct {
+	id       string
+	f        []string // hp H B M N X (hp recomputed from the header bytes)
+	env      byte
+	files    map[string][]byte // base name → content
+	tries    map[string]int    // recipient → stored counter
+	outcomes []string
+	extDel   string
+}
+
+func c02ParseSyn(id string, f []string) (*c02SynSpec, bool) {
+	if len(f) < 6 {
+		return nil, false
 	}
-	maxTries, _ := strconv.Atoi(f[2])
-	id := "a1"
-	files := map[string][]byte{}
-	env := byte('p')
-	var synTries map[string]int
-	if f[4] != "H-" {
-		n, _ := strconv.Atoi(f[4][1:])
-		if f[3] == "1" {
-			h, ok := c02HeaderForLen(n)
+	sp := &c02SynSpec{id: id, f: append([]string{}, f[:6]...), env: 'p', files: map[string][]byte{}}
+	hp, h, b, m, nn, xx := f[0], f[1], f[2], f[3], f[4], f[5]
+	if len(h) < 2 || len(b) < 2 || len(m) < 2 {
+		return nil, false
+	}
+	if h != "H-" {
+		n, _ := strconv.Atoi(h[1:])
+		if hp == "1" {
+			hd, ok := c02HeaderForLen(n)
 			if !ok {
 				panic("c02 syn: header length")
 			}
-			files[id+".header"] = c02HeaderBytes(h)
+			sp.files[id+".header"] = c02HeaderBytes(hd)
 		} else {
-			files[id+".header"] = []byte(strings.Repeat("!", n))
+			sp.files[id+".header"] = []byte(strings.Repeat("!", n))
 		}
 	}
-	if f[5] != "B-" {
-		n, _ := strconv.Atoi(f[5][1:])
-		files[id+".body"] = c02Body(id, n)
+	if b != "B-" {
+		n, _ := strconv.Atoi(b[1:])
+		sp.files[id+".body"] = c02Body(id, n)
 	}
 	switch {
-	case f[6] == "M-":
-	case f[6] == "Mg":
-		files[id+".meta"] = []byte("{\"MsgMeta\":{\"ID\":\"a1\"},\"To\":[\"r1@a")
+	case m == "M-":
+	case m == "Mg":
+		sp.files[id+".meta"] = []byte("{\"MsgMeta\":{\"ID\":\"a1\"},\"To\":[\"r1@a")
 	default:
-		p := strings.Split(f[6][1:], ";")
+		p := strings.Split(m[1:], ";")
 		if len(p) < 2 {
-			return
+			return nil, false
 		}
 		if len(p) > 2 && len(p[2]) == 1 && c02EnvOK(p[2][0]) {
-			env = p[2][0]
+			sp.env = p[2][0]
 		}
 		var to, tries []int
 		for _, s := range strings.Split(p[0], ".") {
@@ -1757,57 +2060,70 @@ func c02RunSyn(out *vh.Out, op string) {
 			v, _ := strconv.Atoi(s)
 			tries = append(tries, v)
 		}
-		synTries = map[string]int{}
+		if len(tries) < len(to) {
+			return nil, false
+		}
+		sp.tries = map[string]int{}
 		for i, r := range to {
-			if i < len(tries) {
-				synTries[strconv.Itoa(r)] = tries[i]
-			}
+			sp.tries[strconv.Itoa(r)] = tries[i]
 		}
-		files[id+".meta"] = c02MetaJSON(id, to, tries, env)
+		sp.files[id+".meta"] = c02MetaJSON(id, to, tries, sp.env)
 	}
-	if f[7] == "N+" {
-		files[id+".meta.new"] = []byte("{\"MsgMe")
+	if nn == "N+" {
+		sp.files[id+".meta.new"] = []byte("{\"MsgMe")
 	}
-	if f[8] == "X+" {
-		files[id+".meta_broken"] = []byte("{}")
+	if xx == "X+" {
+		sp.files[id+".meta_broken"] = []byte("{}")
 	}
-	if data, ok := files[id+".header"]; ok {
-		f[3] = "0"
+	if data, ok := sp.files[id+".header"]; ok {
+		sp.f[0] = "0"
 		if c02HeaderParses(data) {
-			f[3] = "1"
+			sp.f[0] = "1"
 		}
 	}
-	var outcomes []string
-	extDel := ""
-	for _, t := range f[9:] {
+	for _, t := range f[6:] {
+		if t == "" {
+			continue
+		}
 		if t[0] == 'O' {
-			outcomes = append(outcomes, t[1:])
+			sp.outcomes = append(sp.outcomes, t[1:])
 		}
 		if t[0] == 'Z' {
-			extDel = id + ":" + t[1:]
+			sp.extDel = id + ":" + t[1:]
 		}
 	}
-	rec := c02RunSegment(c02SegIn{maxTries: maxTries, files: files, outcomes: map[string][]string{id: outcomes}, recovery: true, extDel: extDel})
-	if rec.raced {
-		out.Stat("syn.external-delete-too-late(discarded)")
-		return
-	}
-	if extDel != "" {
-		out.Stat("syn.external-delete." + extDel[len(id)+1:])
-	}
+	return sp, true
+}
+
+// c02JudgeSyn emits the correspondence line of one hand-made message for the run `rec` (the per-id line
+// `C02 syn …` whatever else was in the directory: ids are independent) and evaluates the property on the
+// real events.  Violations name `violOp` (the op line that reproduces the run; "" = the per-id line).
+func c02JudgeSyn(out *vh.Out, stat string, maxTries int, sp *c02SynSpec, rec c02SegOut, violOp string) int {
+	id, files, env, extDel := sp.id, sp.files, sp.env, sp.extDel
+	nviol := 0
 	lg := rec.logs[id]
 	toks := c02Tokens(lg, c02Cut{pos: len(lg)}, true)
-	line := strings.Join(f[:9], " ") + " R " + strings.Join(toks, " ")
+	line := fmt.Sprintf("C02 syn %d %s R %s", maxTries, strings.Join(sp.f, " "), strings.Join(toks, " "))
 	line = strings.TrimSpace(line)
 	labels := c02Labels(lg, true)
 	out.Corr(line, strings.Join(labels, " ")+" | "+c02ShowDisk(rec.final[id], id))
-	out.Stat("syn.cases")
+	out.Stat(stat + ".cases")
 	for _, l := range labels {
 		if l == "openfail" || l == "scan" || l == "disp" || strings.HasPrefix(l, "rm") {
-			out.Stat("syn.label." + l)
+			out.Stat(stat + ".label." + l)
 		}
 	}
-	out.Stat(fmt.Sprintf("syn.envelope.%c", env))
+	out.Stat(fmt.Sprintf("%s.envelope.%c", stat, env))
+	if data, ok := files[id+".body"]; ok && len(data) < 2 {
+		out.Stat(fmt.Sprintf("%s.body-bytes.%d", stat, len(data)))
+	}
+	if violOp == "" {
+		violOp = line
+	}
+	viol := func(sig, detail string) {
+		nviol++
+		out.Violation(sig, violOp, "message "+id+": "+detail)
+	}
 	// monitor: nothing but pending recipients of the stored metadata is ever attempted
 	stored := map[string]bool{}
 	var storedTo []string
@@ -1827,14 +2143,18 @@ func c02RunSyn(out *vh.Out, op string) {
 	hdrData, hasHdr := files[id+".header"]
 	_, hasBody := files[id+".body"]
 	if storedOK && hasHdr && hasBody && extDel == "" {
-		out.Stat("syn.monitor.stored-message-accounted-for.checked")
-		lost, why := c02Account(id, storedTo, nil, c02EnvNull(env), c02HeaderParses(hdrData), maxTries, synTries, nil, lg, rec.final[id])
+		out.Stat(stat + ".monitor.stored-message-accounted-for.checked")
+		lost, why := c02Account(id, storedTo, nil, c02EnvNull(env), c02HeaderParses(hdrData), maxTries, sp.tries, nil, lg, rec.final[id])
 		if lost != "" {
 			quarantined := ""
 			if _, q := rec.final[id]["X"]; q && c02DidOp(lg, "mvMX") {
 				quarantined = " (the recovery run left the meta-data as .meta_broken, which is never loaded again)"
 			}
-			out.Violation("C02/accepted-lost", line, "pending recipient "+lost+" of the stored message "+why+quarantined+"; after restart: "+strings.Join(labels, " ")+"; files at the end: "+c02ShowDisk(rec.final[id], id))
+			stuck := ""
+			if rec.hung {
+				stuck = " (the recovery run stopped making progress: nothing more is going to happen to this message)"
+			}
+			viol("C02/accepted-lost", "pending recipient "+lost+" of the stored message "+why+quarantined+stuck+"; after restart: "+strings.Join(labels, " ")+"; files at the end: "+c02ShowDisk(rec.final[id], id))
 		}
 	}
 	// monitor: within the recovery run a recipient that was delivered is no longer pending - a later
@@ -1850,22 +2170,178 @@ func c02RunSyn(out *vh.Out, op string) {
 			}
 		}
 		if e.Kind == 'e' && strings.HasPrefix(e.Text, "ATT:") {
-			out.Stat("syn.attempted")
+			out.Stat(stat + ".attempted")
 			for _, r := range strings.Split(e.Text[4:], ".") {
 				if delivered[r] {
-					out.Violation("C02/resent-after-delivery", line, "recipient "+r+" was delivered by an earlier attempt of the recovery run and is attempted again")
+					viol("C02/resent-after-delivery", "recipient "+r+" was delivered by an earlier attempt of the recovery run and is attempted again")
 				}
 				if !stored[r] {
-					out.Violation("C02/foreign-recipient", line, "recipient "+r+" attempted from a hand-made directory is not in the stored metadata")
+					viol("C02/foreign-recipient", "recipient "+r+" attempted from a hand-made directory is not in the stored metadata")
 				}
 			}
 			_, hasH := files[id+".header"]
 			_, hasB := files[id+".body"]
 			if !hasH || !hasB || extDel != "" {
-				out.Violation("C02/delivered-without-content", line, "attempt although header or body file is missing")
+				viol("C02/delivered-without-content", "attempt although header or body file is missing")
 			}
 		}
 	}
+	return nviol
+}
+
+func c02RunSyn(out *vh.Out, op string) {
+	// C02 syn <maxTries> <hp> H<len|-> B<len|-> M<to;tries[;env]|g|-> N<+|-> X<+|-> R <outcome tokens are derived>
+	f := strings.Fields(op)
+	if len(f) < 9 {
+		return
+	}
+	maxTries, _ := strconv.Atoi(f[2])
+	sp, ok := c02ParseSyn("a1", f[3:])
+	if !ok {
+		return
+	}
+	rec := c02RunSegment(c02SegIn{maxTries: maxTries, files: sp.files, outcomes: map[string][]string{sp.id: sp.outcomes}, recovery: true, extDel: sp.extDel})
+	if rec.raced {
+		out.Stat("syn.external-delete-too-late(discarded)")
+		return
+	}
+	if sp.extDel != "" {
+		out.Stat("syn.external-delete." + sp.extDel[len(sp.id)+1:])
+	}
+	n := c02JudgeSyn(out, "syn", maxTries, sp, rec, "")
+	if rec.hung && n == 0 {
+		out.Violation("C02/recovery-hang", op, "the recovery run stopped making progress while the queue still owed a delivery (its own log: a message loaded or accepted, neither removed nor given up on)")
+	}
+}
+
+// ---------------------------------------------------------------- hand-made backlogs
+//
+//	C02 backlog <maxTries> <par> <hp> H.. B.. M.. N.. X.. O.. O.. / <hp> H.. B.. M.. …
+//
+// A spool directory with several hand-made messages (ids a1, a2, … in the order of the groups; each
+// group is the tail of a `C02 syn` line) on which a real queue with max_parallelism = par is started
+// and run to quiescence: the state right after a restart with a backlog.  Per message the
+// correspondence line and the monitor are those of the single hand-made message (the ids are
+// independent: C02_system, C02_backlog_*), violations name the backlog line.  A run that stops making
+// progress is reported as C02/recovery-hang (and its never-attempted messages as C02/accepted-lost).
+func c02RunBacklog(out *vh.Out, op string) int {
+	f := strings.Fields(op)
+	if len(f) < 10 || f[1] != "backlog" {
+		return 0
+	}
+	maxTries, _ := strconv.Atoi(f[2])
+	par, _ := strconv.Atoi(f[3])
+	if par < 1 {
+		return 0
+	}
+	var specs []*c02SynSpec
+	files := map[string][]byte{}
+	outcomes := map[string][]string{}
+	var grp []string
+	flush := func() bool {
+		if len(grp) == 0 {
+			return true
+		}
+		sp, ok := c02ParseSyn(fmt.Sprintf("a%d", len(specs)+1), grp)
+		grp = nil
+		if !ok || sp.extDel != "" {
+			return false
+		}
+		specs = append(specs, sp)
+		for n, d := range sp.files {
+			files[n] = d
+		}
+		outcomes[sp.id] = sp.outcomes
+		return true
+	}
+	for _, t := range f[4:] {
+		if t == "/" {
+			if !flush() {
+				return 0
+			}
+			continue
+		}
+		grp = append(grp, t)
+	}
+	if !flush() || len(specs) == 0 {
+		return 0
+	}
+	rec := c02RunSegment(c02SegIn{maxTries: maxTries, files: files, outcomes: outcomes, recovery: true, par: par})
+	out.Stat("backlog.runs")
+	out.Stat(fmt.Sprintf("backlog.messages.%d", len(specs)))
+	out.Stat(fmt.Sprintf("backlog.max-parallelism.%d", par))
+	nviol := 0
+	var never []string
+	for _, sp := range specs {
+		nviol += c02JudgeSyn(out, "backlog", maxTries, sp, rec, op)
+		attempted := false
+		for _, e := range rec.logs[sp.id] {
+			if e.Kind == 'e' && strings.HasPrefix(e.Text, "ATT:") {
+				attempted = true
+			}
+		}
+		if !attempted {
+			never = append(never, sp.id)
+		}
+	}
+	if rec.hung {
+		nviol++
+		out.Violation("C02/recovery-hang", op, fmt.Sprintf("the recovery run on a spool of %d messages with max_parallelism %d stopped making progress while the queue still owed deliveries; never attempted: %s", len(specs), par, strings.Join(never, " ")))
+	}
+	return nviol
+}
+
+// c02GenBacklog: 3-5 complete stored messages, max_parallelism 1-2 (always fewer than messages), the
+// first attempts of the recovery run failing temporarily for most recipients.
+func c02GenBacklog(r *vh.Rng) string {
+	maxTries := []int{2, 3, 2, 3, 1}[r.Intn(5)]
+	par := 1 + r.Intn(2)
+	k := 3 + r.Intn(3)
+	hls := c02HeaderLens()
+	allFail := r.Bool()
+	line := fmt.Sprintf("C02 backlog %d %d", maxTries, par)
+	for i := 0; i < k; i++ {
+		if i > 0 {
+			line += " /"
+		}
+		n := 1 + r.Intn(3)
+		var to, tr []string
+		for j := 0; j < n; j++ {
+			to = append(to, strconv.Itoa(j+1))
+			c := 0
+			if r.Chance(30) {
+				c = r.Intn(3)
+			}
+			tr = append(tr, strconv.Itoa(c))
+		}
+		m := "M" + strings.Join(to, ".") + ";" + strings.Join(tr, ".")
+		if r.Chance(40) {
+			m += ";" + string("nnnziqm"[r.Intn(7)])
+		}
+		nn, xx := "N-", "X-"
+		if r.Chance(15) {
+			nn = "N+"
+		}
+		if r.Chance(5) {
+			xx = "X+"
+		}
+		line += fmt.Sprintf(" 1 H%d B%d %s %s %s", []int{hls[2], hls[2], hls[0], hls[1], hls[3], hls[2]}[r.Intn(6)], []int{7, 2, 0, 1, 7, 0}[r.Intn(6)], m, nn, xx)
+		for a := 0; a < maxTries+1; a++ {
+			bb := make([]byte, n)
+			for j := range bb {
+				if a == 0 {
+					bb[j] = "ttttttpuoo"[r.Intn(10)]
+				} else {
+					bb[j] = "ootpu"[r.Intn(5)]
+				}
+			}
+			if a == 0 && (allFail || i == 0) && !strings.ContainsAny(string(bb), "tu") {
+				bb[r.Intn(n)] = 't'
+			}
+			line += " O" + string(bb)
+		}
+	}
+	return line
 }
 
 func c02ReplaySyn(out *vh.Out, op string) { c02RunSyn(out, op) }
@@ -1897,13 +2373,14 @@ func c02GenSyn(r *vh.Rng) string {
 			hp = 0
 			h = fmt.Sprintf("H%d", 3+r.Intn(5))
 		} else {
-			base := len(c02HeaderBytes(c02MakeHeader(-1)))
-			h = fmt.Sprintf("H%d", base)
+			hls := c02HeaderLens()
+			h = fmt.Sprintf("H%d", []int{hls[2], hls[2], hls[2], hls[2], hls[0], hls[1], hls[3], hls[2]}[r.Intn(8)])
 		}
 	}
 	b := "B-"
 	if r.Chance(75) {
-		b = fmt.Sprintf("B%d", []int{2, 7}[r.Intn(2)])
+		// B0: the body file of a header-only message (exists, empty)
+		b = fmt.Sprintf("B%d", []int{2, 7, 0, 2, 7, 0, 1, 7}[r.Intn(8)])
 	}
 	m := "M-"
 	n := 0
@@ -1989,6 +2466,14 @@ func TestVerifC02(t *testing.T) {
 		go func() {
 			defer wg.Done()
 			for j := range jobs {
+				if strings.HasPrefix(j.syn, "C02 backlog ") {
+					if atomic.LoadInt64(&c02Hangs) >= c02HangsEnough {
+						out.Stat("backlog.skipped(after-stuck-runs)")
+						continue
+					}
+					c02RunBacklog(out, j.syn)
+					continue
+				}
 				if j.syn != "" {
 					c02RunSyn(out, j.syn)
 					continue
@@ -2010,6 +2495,7 @@ func TestVerifC02(t *testing.T) {
 		for k := 0; k < 3; k++ {
 			jobs <- job{syn: c02GenSyn(r)}
 		}
+		jobs <- job{syn: c02GenBacklog(r)}
 	}
 	close(jobs)
 	wg.Wait()
